@@ -113,7 +113,7 @@ class _LocalDatePatternParser(_IPatternParser[LocalDate]):
         "/": handle_forward_slash,
         "y": _DatePatternHelper._create_year_of_era_handler(year_of_era_getter, year_of_era_setter, LocalDate),
         "u": _SteppedPatternBuilder._handle_padded_field(
-            4, _PatternFields.YEAR, -9999, 9999, year_getter, year_setter, LocalDate
+            4, _PatternFields.YEAR, -9998, 9999, year_getter, year_setter, LocalDate
         ),
         "M": _DatePatternHelper._create_month_of_year_handler(month_getter, month_text_setter, month_setter, LocalDate),
         "d": _DatePatternHelper._create_day_handler(
@@ -287,7 +287,7 @@ class _LocalDatePatternParser(_IPatternParser[LocalDate]):
             """Optimized computation for a pattern with an ISO calendar template value, and year/month/day fields."""
             day: int = self._day_of_month
             month: int = self._month_of_year_numeric
-            # Note: year is always valid, as it's already validated to be in the range -9999 to 9999.
+            # Note: year is always valid, as it's already validated to be in the range -9998 to 9999.
 
             if month > 12:
                 return ParseResult._month_out_of_range(text, month, self._year)
